@@ -26,6 +26,11 @@ def cases(tier):
     ts = tplfam.jinja_templates(tier)
     for i in range(0, len(ts), 32):
         out.append({"k": "jinja", "ts": ts[i : i + 32]})
+    # a branch whose FORCED rendering raises (so its variant is silently skipped) nested in an outer if without else,
+    # followed by an if / elif / else whose unreached branches have tags of different lengths
+    ft = failing_variant_templates()
+    for i in range(0, len(ft), 16):
+        out.append({"k": "jinja", "ts": ft[i : i + 16]})
     ps = tplfam.py_strings(tier)
     for i in range(0, len(ps), 128):
         out.append({"k": "python", "ss": ps[i : i + 128]})
@@ -33,6 +38,23 @@ def cases(tier):
         hs = tplfam.ph_strings(st, tier)
         for i in range(0, len(hs), 256):
             out.append({"k": "placeholder", "style": st, "ss": hs[i : i + 256]})
+    return out
+
+
+def failing_variant_templates():
+    import itertools
+
+    out = []
+    raisers = ['{{ 1 + "2" }}', "{{ u.x.y }}", "{{ xs.nope.more }}"]
+    tails = [
+        "{% if c %}a{% else %}b{% endif %}",
+        "{% if not c %}aa{% else %}b{% endif %}",
+        "{% if c %}a{% elif d %}bb{% else %}ccc{% endif %}",
+        "{% if not c and not d %}a{% else %}bb{% endif %} {% if c %}c{% else %}dd{% endif %}",
+    ]
+    for oc, ic, r, tail in itertools.product(("c", "d", "not c"), ("c", "not c", "d"), raisers, tails):
+        out.append("SELECT 1 {% if " + oc + " %},x {% if " + ic + " %}, " + r + "{% endif %}{% endif %}\nFROM t WHERE " + tail + " = 1\n")
+        out.append("{% if " + oc + " %}{% if " + ic + " %}" + r + "{% endif %}{% endif %}" + tail + "\n")
     return out
 
 
